@@ -47,6 +47,7 @@ type Case struct {
 	FailGet   []int // injected storage faults (vk backend)
 	FailDel   []int
 	Conn      bool `json:",omitempty"` // all requests are served by one recycled RequestCtx (one keep-alive connection shared by the clients, as behind a proxy)
+	ProtoCaps bool `json:",omitempty"` // the proxy in front announces https in capitals (X-Forwarded-Proto: HTTPS)
 	SessNoMW  bool `json:",omitempty"` // session backend without the session middleware in the chain (csrf loads and saves the session through the store itself)
 	Ops       []Op
 }
@@ -235,7 +236,11 @@ func check(c Case) vk.Verdict {
 		safe := op.Method == "GET" || op.Method == "HEAD" || op.Method == "OPTIONS"
 		hdr := []string{"Host", host}
 		if op.Scheme == "https" {
-			hdr = append(hdr, "X-Forwarded-Proto", "https")
+			proto := "https"
+			if c.ProtoCaps {
+				proto = "HTTPS" // scheme names compare without regard to case (RFC 3986 3.1)
+			}
+			hdr = append(hdr, "X-Forwarded-Proto", proto)
 		}
 		var cookies []string
 		if cookieTok != "" {
@@ -457,7 +462,9 @@ var origins = []string{"", "", "null", "SCHEME://site.test", "http://site.test",
 
 var referers = []string{"", "", "SCHEME://site.test/page", "https://trusted.test/p", "https://trusted.test", "https://a.wild.test/x?y=1", "https://evil.test/",
 	"https://evil.test/?r=https://trusted.test", "https://evil.test/x.wild.test", "https://x/?q=.wild.test", "https://evil.test/#.wild.test", "https://a.wild.test", "https://site.test.evil.test/site.test",
-	"https://trusted.test:8443/p", "https://a.wild.test:8443/", "SCHEME://site.test:8443/page"}
+	"https://trusted.test:8443/p", "https://a.wild.test:8443/", "SCHEME://site.test:8443/page",
+	// the same host under the other scheme is another origin
+	"http://site.test/page", "https://site.test/page", "http://site.test", "http://trusted.test/p", "http://a.wild.test/"}
 
 func genCase(t *rapid.T) Case {
 	c := Case{Backend: rapid.SampledFrom([]string{"vk", "vk", "vk-retain", "memory", "session", "session"}).Draw(t, "backend"),
@@ -468,6 +475,7 @@ func genCase(t *rapid.T) Case {
 		c.SessNoMW = rapid.Bool().Draw(t, "sessnomw")
 	}
 	c.Conn = rapid.IntRange(0, 2).Draw(t, "conn") == 0
+	c.ProtoCaps = rapid.IntRange(0, 5).Draw(t, "protocaps") == 0
 	if (c.Backend == "vk" || c.Backend == "vk-retain") && rapid.IntRange(0, 2).Draw(t, "faults") == 0 {
 		c.FailGet = rapid.SliceOfN(rapid.IntRange(1, 15), 0, 2).Draw(t, "failget")
 		c.FailDel = rapid.SliceOfN(rapid.IntRange(1, 4), 0, 1).Draw(t, "faildel")
